@@ -26,9 +26,10 @@ Qed.
 
 (* one alternative: loadCommentRule appends alternative a's own rule, or fails and appends nothing *)
 Lemma gen_alt_is_alt_loaded r a ln dst :
-  gen_loadCommentRule (P := list bytes) (B := irule * Z) (I := irule) (R := irule) (E := unit) (CR := crule)
+  gen_loadCommentRule (P := list bytes) (B := irule * Z) (I := irule) (R := irule) (A := calt) (E := unit) (CR := crule)
     (fun s => match compile s with Some names => inl names | None => inr tt end)
     (fun _ _ _ => tt) check_bound_vars subexp_index (fun b l0 => (fst b, l0)) has_groups (fun b names g => proto_rule names g b)
+    i_alts a_pat a_line
     (r, ln) r r (a_pat a) (a_line a) dst =
   match alt_loaded compile has_groups r a with Some cr => (None, dst ++ [cr]) | None => (Some tt, dst) end.
 Proof.
